@@ -21,7 +21,7 @@ External calls are parameters (`Ext`): `Timestamp::parse` ∘ `fmt_timestamp` (p
 Tracks /repo at c575458 (integers: `parse_integer`, since 7ec6a52; text: CR written as `&#13;`, since 7fbc5bc;
 character data = all text pieces and CDATA sections of the element, since c575458; character data outside the
 document element is refused by `read_event`, which keeps the nesting depth, since d51737b; `Deserializer::text`
-normalises the line ends of every text piece and CDATA section before references are resolved, since eab498c).
+normalises the line ends of every text piece and CDATA section before references are resolved, since d365e05).
 The lookahead state `peeked` / `next_slot` of `Deserializer` is the head of the remaining event list here:
 `peek_event` = look at the head, `consume_peeked` / `next_event` = drop it; `Empty` is expanded by `deEvents`.
 -/
@@ -256,7 +256,7 @@ def decodeStr (raw : Bytes) : Except DeErr Bytes :=
     | none => .error .invalidXml
   else .error .invalidXml
 
-/-! ### line ends (XML 1.0 §2.11; `normalize_line_ends` / `normalize_text` of `xml/de.rs`, since eab498c) -/
+/-! ### line ends (XML 1.0 §2.11; `normalize_line_ends` / `normalize_text` of `xml/de.rs`, since d365e05) -/
 
 /-- `str::replace("\r\n", "\n")` -/
 def replaceCrLf : Bytes → Bytes
@@ -293,7 +293,7 @@ def joinedText (single joined : Option Bytes) : Except DeErr Bytes :=
 
 /-- the loop of `Deserializer::text` (since c575458): the character data of an element is all its text pieces and
 CDATA sections up to the end tag (comments and PIs are already skipped). The line ends of every piece are
-normalised first (`normText` / `normLineEnds`, since eab498c; until then a literal CR went through: finding F-xml-9,
+normalised first (`normText` / `normLineEnds`, since d365e05; until then a literal CR went through: finding F-xml-9,
 fixed). A lone text piece stays as it is otherwise (`single`, still escaped); as soon as there is a second piece or
 a CDATA section everything is unescaped into `joined`, and what the scalar parser `f` gets is `escape(joined)`.
 `End` is not consumed. -/
